@@ -21,7 +21,7 @@ import (
 // follows the request on the stream unmodified, and Close cancels reading and
 // ends the stream gracefully.
 //
-//verif:harness kind=api replay=interp unwind=300 preempt=0 bound=message<=2B,payload<=3B,write<=2B,chunk∈{1,all},fast-open-on/off
+//verif:harness kind=api replay=interp unwind=300 preempt=0 bound=message<=2B,payload<=3B,write<=2B,chunk∈{1,all},fast-open-on/off,close-with-or-without-reading
 func ZZ_C06_ClientConn() {
 	zzServer.header = http.Header{"Hysteria-Udp": []string{"false"}}
 	zzServer.status = 233
@@ -62,6 +62,17 @@ func ZZ_C06_ClientConn() {
 	verifAssert(ferr == nil && ft == protocol.FrameTypeTCPRequest && aerr == nil && addr == "example.com:80", "the stream starts with a well-formed request for the destination")
 	rest := st.out[len(st.out)-rd.Len():]
 	verifAssert(bytes.Equal(rest, w), "followed by exactly what the caller wrote")
+	// a one-way upload: the caller may close right after writing, without ever reading
+	if verifChoice("closeWithoutReading", 2) == 1 {
+		verifAssert(conn.Close() == nil, "Close succeeds")
+		for _, op := range st.ops {
+			verifAssert(op != "cancelwrite", "closing after writing never aborts the sending direction: what was written is still delivered")
+		}
+		nops := len(st.ops)
+		verifAssert(nops >= 2 && st.ops[nops-2] == "cancelread" && st.ops[nops-1] == "close", "Close cancels reading and then ends the stream gracefully")
+		verifCover("write-then-close")
+		return
+	}
 	// the caller reads everything
 	var got []byte
 	buf := make([]byte, 2)
